@@ -45,8 +45,7 @@ func (def *structAsContainer) clear(m meta.Definition) error {
 	if err != nil {
 		return err
 	}
-	h.clear()
-	return nil
+	return h.clear()
 }
 
 func (def *structAsContainer) getHandler(m meta.Definition) (reflectFieldHandler, error) {
@@ -232,8 +231,15 @@ func (fdef *reflectByField) elem() reflect.Value {
 }
 
 func (fdef *reflectByField) clear() error {
-	fdef.elem().FieldByIndex(fdef.f.Index).SetZero()
-	return nil
+	if fdef.f.Name != "" {
+		fdef.elem().FieldByIndex(fdef.f.Index).SetZero()
+		return nil
+	}
+	if fdef.setter.Name != "" {
+		// no field to reset, hand the setter the zero value of its parameter
+		return fdef.set(reflect.Zero(fdef.setter.Type.In(1)))
+	}
+	return fmt.Errorf("%s has no recognized way to clear value", fdef.m.Ident())
 }
 
 func (fdef *reflectByField) get() (reflect.Value, error) {
